@@ -5,6 +5,9 @@ CONSTANTS
   TA = 3
   MaxT = 4
   TickSteps = {}
+  LifeEvents = FALSE
+  KeepAlive = 2
+  ClearWhen = "always"
   DupMode = "restart"
   ClearFirst = TRUE
 VIEW view
